@@ -5,7 +5,7 @@
 cd /verif
 P=${1:-3}
 : > ${REEVAL_OUT:=/tmp/reeval_all.out}
-for d in seeded/*/; do
+for d in seeded/${REEVAL_ONLY:-}*/; do
   n=$(basename $d); p=${n:0:3}; extra=""
   case $n in C04H|C03H|C03J) extra=" C16";; C10L|C10P) extra=" C06";; esac
   echo "/verif/$d/patch.diff $n quick $p$extra"
